@@ -205,6 +205,7 @@ theorem inv_pushNode {s : State} (I : Inv s) {h : Nat} {st : St} {k : Int}
       rw [hh]; simp; exact hz
   · rw [pushNode_bufsize, hN]
     have := I.cap
+    have hg : s.nodes.length < growTo s.nodes.length := by unfold growTo; omega
     simp [checkCap]
     split <;> omega
 
